@@ -31,13 +31,6 @@ Definition model_query (n : option Z) (q : query) : res (list Z) :=
   | QIter => iter_node n
   | QWire => Ok [0]
   end.
-Definition corr (c : case) : bool :=
-  match c with
-  | CIndex idx n q obs => obs_eqb obs (tag idx (model_query n q))
-  | CBuilder idx s q obs => obs_eqb obs (tag idx (model_query (builder_count s) q))
-  | CPortEq a b e h => Bool.eqb e (port_eqb a b)
-  end.
-
 (* the property's own reading; None = the property does not speak about this query *)
 Definition spec_query (n : option Z) (q : query) : option (res (list Z)) :=
   match n, q with
@@ -53,6 +46,18 @@ Definition spec_query (n : option Z) (q : query) : option (res (list Z)) :=
   | None, QInt i => if i <? 0 then None else Some (Ok [i])
   | None, QIter => Some (Err ValueError)
   | None, _ => None
+  end.
+(* model == implementation, compared only where the property speaks (spec_query = Some _): outside its domain
+   (slice step <= 0, slicing / negative indexing of a handle without a known count) the code may do anything,
+   e.g. raise ValueError for a zero step, without that being a broken tie (harmless change C16-n2) *)
+Definition speaks (n : option Z) (q : query) : bool :=
+  match spec_query n q with Some _ => true | None => false end.
+Definition corr (c : case) : bool :=
+  match c with
+  | CIndex idx n q obs => negb (speaks n q) || obs_eqb obs (tag idx (model_query n q))
+  | CBuilder idx s q obs =>
+      negb (speaks (builder_count s) q) || obs_eqb obs (tag idx (model_query (builder_count s) q))
+  | CPortEq a b e h => Bool.eqb e (port_eqb a b)
   end.
 Definition mon (c : case) : bool :=
   match c with
